@@ -14,7 +14,10 @@ for p in props:
     pid = p["id"]
     try:
         m = importlib.import_module("props.%s" % pid.lower())
-    except ModuleNotFoundError:
+        _ = (m.LEVEL_TEXT, m.LEVEL_NOTE, m.TECHNIQUE, m.generate, m.run_impl, m.emit)
+        if not os.path.exists(os.path.join(VERIF, "coq", m.PROPS_FILE)) or getattr(m, "NOT_READY", False):
+            raise AttributeError("not ready")
+    except (ModuleNotFoundError, AttributeError, SyntaxError, ImportError):
         na.append({"property_id": pid, "reason": "check not built yet (planned: Coq model + theorems + correspondence, see DESIGN.md section 6)"})
         continue
     checks.append({
